@@ -57,6 +57,19 @@ def atoi (s : String) : Option Int :=
   let r := atoiRaw s
   if r.2 then some r.1 else none
 
+/-! ### `strconv.FormatInt(i, 10)` -/
+
+def digitChar (d : Nat) : Char := Char.ofNat (48 + d)
+
+/-- decimal digits of `n`, most significant first (`fuel ≥ n` is always enough) -/
+def natDigits : Nat → Nat → List Char
+  | 0, _ => ['0']
+  | f + 1, n => if n < 10 then [digitChar n] else natDigits f (n / 10) ++ [digitChar (n % 10)]
+
+/-- canonical decimal rendering of an integer -/
+def renderInt (i : Int) : String :=
+  if i < 0 then String.ofList ('-' :: natDigits i.natAbs i.natAbs) else String.ofList (natDigits i.natAbs i.natAbs)
+
 /-! ### Requirement -/
 
 inductive Op
@@ -218,22 +231,25 @@ def wrap64 (d : Int) : Int :=
     empty (or int-overflowing) width ⇒ `""`; otherwise a canonical decimal integer in `[min, max)` that is not
     excluded, or `""` when the fallback scan over the first `len(values)+1` integers of the range finds none.
     Every other operator: `""`. -/
+def Req.anyLo (r : Req) : Int := r.gte.getD 0
+def Req.anyHi (r : Req) : Int :=
+  match r.lte with
+  | some l => if l < maxInt then l + 1 else maxInt
+  | none => maxInt
+
+def Req.anyRange (r : Req) (out : Val) : Bool :=
+  if wrap64 (r.anyHi - r.anyLo) ≤ 0 then out == ""
+  else if out == "" then
+    (List.range (min (card r.values + 1) (wrap64 (r.anyHi - r.anyLo)).toNat)).all
+      (fun j => r.values.contains (renderInt (r.anyLo + (j : Int))))
+  else match atoi out with
+    | some i => decide (r.anyLo ≤ i) && decide (i < r.anyHi) && (renderInt i == out) && !r.values.contains out
+    | none => false
+
 def Req.anyAllowed (r : Req) (out : Val) : Bool :=
   match r.operator with
   | .in_ => r.values.contains out
-  | .notIn | .exists_ =>
-    let lo : Int := r.gte.getD 0
-    let hi : Int := match r.lte with
-      | some l => if l < maxInt then l + 1 else maxInt
-      | none => maxInt
-    let width := wrap64 (hi - lo)
-    if width ≤ 0 then out == ""
-    else if out == "" then
-      let n := min (card r.values + 1) width.toNat
-      (List.range n).all (fun j => r.values.contains (toString (lo + (j : Int))))
-    else match atoi out with
-      | some i => decide (lo ≤ i) && decide (i < hi) && (toString i == out) && !r.values.contains out
-      | none => false
+  | .notIn | .exists_ => r.anyRange out
   | _ => out == ""
 
 /-! ### Serialisation (`NodeSelectorRequirement`, `BoundedNodeSelectorRequirements`) -/
@@ -245,7 +261,7 @@ structure Sel where
   minValues : Option Int
 deriving Repr, DecidableEq
 
-/-- sorted, duplicate-free (what `sets.List` returns) -/
+/-- sorted, duplicate-free (what `sets.List` returns); used by the driver to canonicalise value sets -/
 def sortedVals (l : List Val) : List Val := (l.eraseDups.toArray.qsort (· < ·)).toList
 
 /-- `Requirements.NodeSelectorRequirements` for one requirement, as repaired for C13: bounds are emitted
@@ -253,18 +269,27 @@ def sortedVals (l : List Val) : List Val := (l.eraseDups.toArray.qsort (· < ·)
     (before the repair the exclusions were dropped whenever a bound was present). -/
 def Req.toSelectors (r : Req) : List Sel :=
   let bounds : List Sel :=
-    (match r.gte with | some g => [{ key := r.key, op := .gte, values := [toString g], minValues := r.minValues }] | none => []) ++
-    (match r.lte with | some l => [{ key := r.key, op := .lte, values := [toString l], minValues := r.minValues }] | none => [])
+    (match r.gte with | some g => [{ key := r.key, op := .gte, values := [renderInt g], minValues := r.minValues }] | none => []) ++
+    (match r.lte with | some l => [{ key := r.key, op := .lte, values := [renderInt l], minValues := r.minValues }] | none => [])
   if bounds.isEmpty then
     if r.complement then
       if r.values.isEmpty then [{ key := r.key, op := .exists_, values := [], minValues := r.minValues }]
-      else [{ key := r.key, op := .notIn, values := sortedVals r.values, minValues := r.minValues }]
+      else [{ key := r.key, op := .notIn, values := r.values, minValues := r.minValues }]
     else
       if r.values.isEmpty then [{ key := r.key, op := .doesNotExist, values := [], minValues := r.minValues }]
-      else [{ key := r.key, op := .in_, values := sortedVals r.values, minValues := r.minValues }]
+      else [{ key := r.key, op := .in_, values := r.values, minValues := r.minValues }]
   else
     bounds ++ (if r.complement && !r.values.isEmpty then
-      [{ key := r.key, op := .notIn, values := sortedVals r.values, minValues := r.minValues }] else [])
+      [{ key := r.key, op := .notIn, values := r.values, minValues := r.minValues }] else [])
+
+/-- `NewNodeSelectorRequirementsWithMinValues` restricted to the entries of one key:
+    each entry is constructed and `Add`ed, i.e. `new.Intersection(existing)` -/
+def fromSelectors (sels : List Sel) : Except NewErr (Option Req) :=
+  sels.foldlM (fun (acc : Option Req) (s : Sel) => do
+    let r ← Req.new s.key s.op s.minValues s.values
+    match acc with
+    | none => pure (some r)
+    | some e => pure (some (r.inter e))) none
 
 /-! ### Requirements (a map key ↦ requirement, as an association list with distinct keys) -/
 
